@@ -531,7 +531,11 @@ pub fn vec_op<'b, P: Pair>(ctx: &mut Ctx, bump: &'b Bump, v: &mut VSlot<'b, P::A
         14 => {
             let m = 2 + (a % 4) as u32;
             let r = (b as u32) % m;
-            ctx.both("retain", || s.retain(|x| x.val() % m != r), || t.retain(|x| x.val() % m != r));
+            // sometimes the destructor of a removed element panics: what is left in the vector must be what std leaves
+            let bomb = if c & 0xC0 == 0xC0 { 1 + (c as u32 & 3) } else { 0 };
+            crate::celem::arm_drop_bombs(bomb);
+            ctx.both(&format!("retain{}", if bomb > 0 { format!(" with the destructor of the {bomb}. removed element panicking") } else { String::new() }), || s.retain(|x| x.val() % m != r), || t.retain(|x| x.val() % m != r));
+            crate::celem::arm_drop_bombs(0);
         }
         15 => {
             // drain_filter: caller takes `take` items, then drops (finishing the filter) or forgets
